@@ -36,10 +36,11 @@ type c04Mode struct {
 }
 
 type c04DBEnv struct {
-	mode c04Mode
-	db   *Database
-	ctx  context.Context
-	coll *DatabaseCollectionWithUser
+	mode   c04Mode
+	nested *sync.Map // doc id -> func(): a write to run inside the compute -> write window of the next write to that document (db-retry part)
+	db     *Database
+	ctx    context.Context
+	coll   *DatabaseCollectionWithUser
 }
 
 func c04OpenDB(t *testing.T, allowConflicts bool) *c04DBEnv {
@@ -201,6 +202,9 @@ type c04DocResult struct {
 	EditRev     string
 	Events      []string
 	Broken      bool
+	// set for the write being judged when (db-retry part) a push that resurrects a tombstoned document committed after
+	// another push had updated the tombstone inside its compute -> write window
+	ResurrectionRace string
 }
 
 type c04Job struct {
@@ -213,7 +217,7 @@ type c04Job struct {
 
 func (e *c04DBEnv) body(tag string, rev c04Rev) Body {
 	b := Body{"m": tag + "/" + rev.ID, "channels": []string{"c04"}}
-	if vlib.HashStr(rev.ID)%3 == 0 {
+	if (vlib.HashStr(tag+"/"+rev.ID)>>7)%2 == 0 {
 		b["pad"] = strings.Repeat("x", 300) // > MaximumInlineBodySize: stored outside the tree when not winning
 	}
 	if rev.Deleted {
@@ -289,6 +293,16 @@ func c04AfterWrite(run *vlib.Run, e *c04DBEnv, res *c04DocResult, s c04Set, tag 
 			probs = append(probs, c04Problem{Oracle: "winning-body", Sig: "read-api-current-revision-differs-from-winner", Msg: fmt.Sprintf("GetRev(current) = rev %q deleted=%v marker %q; winner %q marker %q", rev.RevID, rev.Deleted, c04Marker(rev.BodyBytes), facts.Winner, want)})
 		}
 	}
+	if len(probs) > 0 && res.ResurrectionRace != "" {
+		// one history shape, one signature: the resurrecting write replaced the tombstone without a CAS check
+		var msgs []string
+		for _, p := range probs {
+			msgs = append(msgs, p.Sig+": "+p.Msg)
+		}
+		probs = []c04Problem{{Oracle: "order-independence", Global: true,
+			Sig: "db-retry|write-resurrecting-a-tombstone-is-not-cas-guarded|concurrently-accepted-tombstone-revision-lost",
+			Msg: res.ResurrectionRace + "; " + strings.Join(msgs, "; ")}}
+	}
 	if len(probs) > 0 {
 		c04Report(run, where, probs, wit())
 		res.Broken = true
@@ -315,14 +329,13 @@ func c04RunDoc(run *vlib.Run, e *c04DBEnv, job c04Job, oi int, cnt map[string]in
 	run.Eval()
 	var stored *Document
 	var facts c04TreeFacts
-	for _, i := range order {
-		doc, _, err := e.coll.PutExistingRevWithBody(e.ctx, res.Doc, e.body(tag, s[i]), s.history(i), e.mode.NoConflictsArg, ExistingVersionWithUpdateToHLV)
+	record := func(i int, doc *Document, err error, how string) {
 		cnt["pushes"]++
 		switch {
 		case err != nil:
 			cls := c04ErrClass(err)
 			cnt["push_rejected_"+cls]++
-			res.Events = append(res.Events, fmt.Sprintf("push %s rejected (%s): %v", s[i].ID, cls, err))
+			res.Events = append(res.Events, fmt.Sprintf("push %s%s rejected (%s): %v", s[i].ID, how, cls, err))
 			if cls != "http-409" {
 				run.Note("unexpected rejection class %s in %s: push %v into %s: %v", cls, e.mode.Name, s.history(i), res.Doc, err)
 			} else if e.mode.AllowConflicts && !e.mode.NoConflictsArg {
@@ -332,14 +345,55 @@ func c04RunDoc(run *vlib.Run, e *c04DBEnv, job c04Job, oi int, cnt map[string]in
 		case doc == nil:
 			cnt["push_noop"]++
 			res.Accepted[i] = true
-			res.Events = append(res.Events, fmt.Sprintf("push %s acknowledged (already known)", s[i].ID))
+			res.Events = append(res.Events, fmt.Sprintf("push %s%s acknowledged (already known)", s[i].ID, how))
 		default:
 			cnt["push_accepted"]++
 			res.Accepted[i] = true
-			res.Events = append(res.Events, fmt.Sprintf("push %s accepted, current %s flags %s", s[i].ID, doc.GetRevTreeID(), c04FlagString(doc.Flags)))
+			res.Events = append(res.Events, fmt.Sprintf("push %s%s accepted, current %s flags %s", s[i].ID, how, doc.GetRevTreeID(), c04FlagString(doc.Flags)))
+		}
+	}
+	push := func(i int) (*Document, error) {
+		doc, _, err := e.coll.PutExistingRevWithBody(e.ctx, res.Doc, e.body(tag, s[i]), s.history(i), e.mode.NoConflictsArg, ExistingVersionWithUpdateToHLV)
+		return doc, err
+	}
+	for k := 0; k < len(order); k++ {
+		i := order[k]
+		// forced CAS loss: the next push of the order commits inside this push's compute -> write window
+		nestedRan, j := false, -1
+		var ndoc *Document
+		var nerr error
+		if e.nested != nil && k+1 < len(order) {
+			j = order[k+1]
+			e.nested.Store(res.Doc, func() { nestedRan = true; ndoc, nerr = push(j) })
+		}
+		doc, err := push(i)
+		if e.nested != nil {
+			e.nested.Delete(res.Doc)
+		}
+		last, lastID, lastDel := doc, s[i].ID, s[i].Deleted
+		if nestedRan {
+			k++
+			cnt["nested_pushes"]++
+			if nerr == nil && ndoc != nil {
+				cnt["forced_cas_retries"]++
+			}
+			record(j, ndoc, nerr, fmt.Sprintf(" (committed inside the first write attempt of %s)", s[i].ID))
+			if err != nil || doc == nil { // the outer push did not commit after all: the nested one is the latest version
+				last, lastID, lastDel = ndoc, s[j].ID, s[j].Deleted
+				if nerr != nil {
+					last = nil
+				}
+			}
+		}
+		record(i, doc, err, "")
+		res.ResurrectionRace = ""
+		if nestedRan && nerr == nil && ndoc != nil && ndoc.IsDeleted() && stored != nil && stored.IsDeleted() && err == nil && doc != nil && !doc.IsDeleted() {
+			res.ResurrectionRace = fmt.Sprintf("the document was a tombstone (current %s); push %s (keeps it a tombstone) committed inside the first write attempt of push %s, which resurrects the document and committed afterwards without a CAS retry",
+				stored.GetRevTreeID(), s[j].ID, s[i].ID)
+			cnt["resurrection_races"]++
 		}
 		var ok bool
-		stored, facts, ok = c04AfterWrite(run, e, res, s, tag, stored, doc, s[i].ID, s[i].Deleted, cnt, wit)
+		stored, facts, ok = c04AfterWrite(run, e, res, s, tag, stored, last, lastID, lastDel, cnt, wit)
 		if !ok && res.Broken {
 			return res
 		}
@@ -423,7 +477,31 @@ func c04RunDoc(run *vlib.Run, e *c04DBEnv, job c04Job, oi int, cnt map[string]in
 			return res
 		}
 		_ = stored2
+		// db-retry part: a new conflicting root commits inside the deletion's first write attempt
+		nestedRan := false
+		var nerr error
+		var ndoc *Document
+		extra := c04Rev{ID: "1-n9", Gen: 1, Dig: "n9", Parent: -1}
+		if e.nested != nil && e.mode.AllowConflicts {
+			e.nested.Store(res.Doc, func() {
+				nestedRan = true
+				ndoc, _, nerr = e.coll.PutExistingRevWithBody(e.ctx, res.Doc, e.body(tag, extra), []string{extra.ID}, false, ExistingVersionWithUpdateToHLV)
+			})
+		}
 		delRev, ddoc, err := e.coll.DeleteDoc(e.ctx, res.Doc, DocVersion{RevTreeID: f2.Winner})
+		if e.nested != nil {
+			e.nested.Delete(res.Doc)
+		}
+		if nestedRan {
+			cnt["nested_pushes"]++
+			res.Events = append(res.Events, fmt.Sprintf("push %s committed inside the first write attempt of the deletion: err=%v", extra.ID, nerr))
+			if nerr == nil && ndoc != nil {
+				cnt["forced_cas_retries"]++
+				cnt["deletions_retried_after_cas_loss"]++
+				s2 = append(s2, extra)
+				res.Accepted = append(res.Accepted, true)
+			}
+		}
 		cnt["deletions"]++
 		if err != nil {
 			res.Events = append(res.Events, fmt.Sprintf("delete of %s failed: %v", f2.Winner, err))
@@ -839,4 +917,71 @@ func c04RunJobs(run *vlib.Run, jobs []c04Job, totalp *c04Counters) {
 		c04SampleMu.Unlock()
 		total.add(cnt)
 	})
+}
+
+// Part "db-retry": the same pushes, new edits and deletions, but every second push commits inside the
+// compute -> write window (hook H1) of the push before it, which therefore loses its CAS attempt and is retried
+// by the gateway on top of the other push; the deletion of the winner likewise loses its first attempt to a
+// new conflicting root. A schedule with retries is just another way of accepting the same revisions: the per-write oracles (monitor, store -> reload, tree implied by the accepted pushes, winning
+// body = the body pushed with the winner) and the comparison between orders are unchanged.
+func TestVerif_C04_DBRetry(t *testing.T) {
+	run := vlib.Start(t, "C04", "db-retry")
+	defer run.Finish()
+	r := run.Rand()
+	var sets []c04Set
+	c04EnumSets([]int{1, 2, 3}, 3, false, func(s c04Set) { sets = append(sets, s) })
+	exhaustive := len(sets)
+	var big4 []c04Set
+	c04EnumSets([]int{1, 2, 3, 4}, 4, false, func(s c04Set) {
+		if len(s) == 4 {
+			big4 = append(big4, s)
+		}
+	})
+	for _, i := range r.Perm(len(big4))[:run.N(30, 150)] {
+		sets = append(sets, big4[i])
+	}
+	run.Count("revision_sets", len(sets))
+
+	var envs []*c04DBEnv
+	for i, allow := range []bool{true, false} {
+		vs := newVStore(t)
+		vs.logOn.Store(false)
+		ctx0 := base.TestCtx(t)
+		defer vs.Close(ctx0)
+		db, ctx := SetupTestDBForBucketWithOptions(t, vs.vtb, DatabaseContextOptions{AllowConflicts: base.Ptr(allow), CacheOptions: base.Ptr(DefaultCacheOptions())})
+		defer db.Close(ctx)
+		coll, ctx := GetSingleDatabaseCollectionWithUser(ctx, t, db)
+		nested := &sync.Map{}
+		vs.SetMid(func(op *base.VerifOp, actor string) error {
+			if op.Kind != "WriteUpdateWithXattrs.mid" {
+				return nil
+			}
+			if f, ok := nested.LoadAndDelete(op.Key); ok {
+				f.(func())() // runs on the writer's goroutine, before its CAS write
+			}
+			return nil
+		})
+		name := "conflict-free+forced-cas-retry"
+		if allow {
+			name = "allow-conflicts+forced-cas-retry"
+		}
+		envs = append(envs, &c04DBEnv{mode: c04Mode{Name: name, AllowConflicts: allow, Idx: 20 + i}, db: db, ctx: ctx, coll: coll, nested: nested})
+	}
+	var jobs []c04Job
+	for _, e := range envs {
+		for si, s := range sets {
+			orders := c04DBOrders(r, si, s)
+			if si >= exhaustive { // 4 of the 24 orders
+				var sel [][]int
+				for _, oi := range r.Fork(uint64(si)).Perm(len(orders))[:4] {
+					sel = append(sel, orders[oi])
+				}
+				orders = sel
+			}
+			jobs = append(jobs, c04Job{env: e, setIdx: si, set: s, orders: orders, hostile: false})
+		}
+	}
+	var total c04Counters
+	c04RunJobs(run, jobs, &total)
+	total.flush(run)
 }
